@@ -27,9 +27,9 @@ CLAIMS = {
  "C13": "poison truth table (poisoned iff a panic started under the guard and it is not a cancellation unwind); delivery of exactly the panic payload / Cancel by join(); the panic branch of run_coroutine stores the payload before it triggers the join; a panic passing through a scope leaves the owner's cancel state as it found it (scoped join). Worker survival and stack reuse after a panic are NOT decided (generator shim).",
  "C14": "Join::wait returns only when the joined coroutine has finished, also when the waiter's park is ended by a cancellation (found and fixed D4); the scoped join (JoinState::join) joins its child exactly once with the owner's cancellation disabled and restored afterwards, for every combination of owner context / child result / owner unwinding; Scope::drop_all runs every deferred join exactly once in order and keeps the not-yet-run joins linked in the scope while one runs; dropping a Cqueue cancels the running select coroutines and polls without time-out until poll reports Finished. The re-raise through resume_unwind, scope() itself and the macros are not under contract.",
  "C15": "NARROW claim: the passed-in result (time-out / cancel error) is consumed before park returns, before sleep returns and before the cancel panic, so it cannot leak into the next blocking call or the next coroutine on a pooled stack (C02.10, C08.4a); the panic branch of run_coroutine hands the coroutine to the recycler exactly once after the join trigger (C13.1b); the stack pool hands a recycled stack to at most one spawn (C15.4a, bounded). Privacy of LocalKey values (HashMap) and freshness of the CoroutineLocal attached by spawn are NOT decided: the life-cycle harnesses exceed CBMC's limits (DESIGN.md §9.2 item 7).",
- "C16": "poll's register-then-recheck against one select coroutine sending or ending at each of the poller's observation points (never parks unregistered or with an event queued; returns exactly the event sent, its bottom half started exactly once; Done events are not returned and trigger check_panic once; Finished only with the counter at zero); sender side pushes the event with the coroutine inside before waking; Cqueue::drop cancels every unfinished select coroutine, then drains with poll(None) until Finished. Multi-arm schedules, time-outs, check_panic's re-raise and the macros are NOT decided.",
+ "C16": "poll's register-then-recheck against one select coroutine sending or ending at each of the poller's observation points (never parks unregistered or with an event queued; returns exactly the event sent, its bottom half started exactly once; Done events are not returned and trigger check_panic once; Finished only with the counter at zero); sender side: send aborts a cancelled arm before any hand-over, stores the extra data, hands over one event and is not aborted by a cancel that arrived while the event was queued (the bottom half runs); subscribe pushes the event with the coroutine inside before waking; Cqueue::drop cancels every unfinished select coroutine, then drains with poll(None) until Finished. Multi-arm schedules, time-outs, check_panic's re-raise and the macros are NOT decided.",
  "C17": "every socket operation struct under src/io/sys/unix/net (read, write, peek, vectored write, TCP/Unix accept, TCP/Unix connect, UDP/Unix datagram send and receive). Worker side (subscribe, complete per operation): coroutine published before the readiness flag is re-read, an edge that raced ahead resumes it exactly once, otherwise it stays published for the selector; the selector side hands it over exactly once. Caller side (done): flag cleared before every syscall, suspension only with the flag clear, no attempt after a final result, kernel result verbatim — read/write/peek for every script of <= 3 attempts (bounded), the others for concrete scripts (bounded; the success path of accept/connect is not under contract). Vectored-write done loop, the epoll loop, kernel semantics, byte-stream integrity above the operation structs and the thread-context branch are NOT under contract.",
- "C18": "time-out conversion read by every I/O time-out (AtomicDuration::get) never lost / never early; timer handle removed and handed to del_timer after a timed park; for every socket operation: I/O timer armed before the coroutine is published and iff a time-out is set, cancel re-checked after registering (a cancel that raced ahead reschedules the coroutine once); EventData::schedule / fast_schedule disarm the timer entry (null the back pointer) before removing it, so a lost removal race cannot time out a later operation; timeout_handler resumes the blocked coroutine once with TimedOut unless disarmed. The epoll loop and the timer thread are not under contract.",
+ "C18": "time-out conversion read by every I/O time-out (AtomicDuration::get) never lost / never early; timer handle removed and handed to del_timer after a timed park; for every socket operation: I/O timer armed before the coroutine is published and iff a time-out is set, cancel re-checked after registering (a cancel that raced ahead reschedules the coroutine once); EventData::schedule / fast_schedule disarm the timer entry (null the back pointer) before removing it, so a lost removal race cannot time out a later operation; timeout_handler resumes the blocked coroutine once with TimedOut unless disarmed; Selector::del_fd (drop of a socket after a cancelled timed operation) leaves the timer entry disarmed. The epoll loop and the timer thread are not under contract.",
  "C19": "push post-state and consumer-spins-while-push-in-flight as complete white-box obligations; sequential exactly-once / order / remove semantics / reference counting as bounded scenario stand-ins with symbolic payloads under CBMC pointer checks. Concurrent push vs remove is NOT decided.",
 }
 NOT_YET = {
